@@ -89,31 +89,18 @@ theorem okNext_render (E : List Char) (hG : GoodDelims E) (o : Bool) (fs : List 
 def PFrag (cfg : Cfg) (f : Frag) : Prop :=
   ∀ E, GoodDelims E → f.wf E = true → ∀ (o k sb : Bool) (X : Str) (RX : Res),
     (isBare f = true → okNext X) → GS cfg E o k sb X RX →
-    GS cfg E o k sb (f.render E ++ X)
-      (match f.eval cfg sb with
-       | .error e => .error e
-       | .ok v => cat v RX)
+    GS cfg E o k sb (f.render E ++ X) (bindE (f.eval cfg sb) fun v => cat v RX)
 
 def PList (cfg : Cfg) (fs : List Frag) : Prop :=
   ∀ E, GoodDelims E → wfL E fs = true → ∀ (o k sb : Bool) (tail : Str), Term E o tail →
-    GS cfg E o k sb (renderL E fs ++ tail)
-      (match evalL cfg sb fs with
-       | .error e => .error e
-       | .ok v => .ok (v, closeRest k tail))
+    GS cfg E o k sb (renderL E fs ++ tail) (bindE (evalL cfg sb fs) fun v => .ok (v, closeRest k tail))
 
 def PArgs (cfg : Cfg) (as : List (List Frag)) : Prop :=
   wfArgs as = true → ∀ (sb : Bool) (acc : List Str) (X wtxt : Str) (Rw : Except PErr Str),
-    (∀ T, Term ctxWord false T → GS cfg ctxWord false true sb (wtxt ++ T)
-      (match Rw with
-       | .error e => .error e
-       | .ok v => .ok (v, T))) →
+    (∀ T, Term ctxWord false T →
+      GS cfg ctxWord false true sb (wtxt ++ T) (bindE Rw fun v => .ok (v, T))) →
     GC cfg sb (wtxt ++ (renderArgs as ++ ')' :: X)) acc
-      (match Rw with
-       | .error e => .error e
-       | .ok v =>
-         match evalArgs cfg sb as with
-         | .error e => .error e
-         | .ok vs => finish cfg sb (vs.reverse ++ v :: acc) X)
+      (bindE Rw fun v => bindE (evalArgs cfg sb as) fun vs => finish cfg sb (vs.reverse ++ v :: acc) X)
 
 /-! ### small facts used by the literal cases -/
 
@@ -137,15 +124,7 @@ theorem plain_lit (E : List Char) (c : Char) (h : (metaChars.contains c || E.con
     subst heq
     exact absurd h.1 (by decide)
 
-theorem evalL_cons (cfg : Cfg) (sb : Bool) (f : Frag) (fs : List Frag) :
-    evalL cfg sb (f :: fs) =
-      match f.eval cfg sb with
-      | .error e => .error e
-      | .ok v =>
-        match evalL cfg sb fs with
-        | .error e => .error e
-        | .ok r => .ok (v ++ r) := by
-  rw [evalL]
+theorem closeRest_true (T : Str) : closeRest true T = T := by cases T <;> rfl
 
 /-! ### the induction -/
 
@@ -154,7 +133,7 @@ mutual
 theorem pFrag (cfg : Cfg) : (f : Frag) → PFrag cfg f
   | .lit c => by
     intro E hG _ o k sb X RX _ hRX
-    simp only [Frag.render, Frag.eval, renderLit]
+    simp only [Frag.render, Frag.eval, renderLit, bindE_ok]
     cases hm : (metaChars.contains c || E.contains c) with
     | true =>
       simp only [if_true, List.cons_append, List.nil_append]
@@ -167,14 +146,14 @@ theorem pFrag (cfg : Cfg) : (f : Frag) → PFrag cfg f
       exact GS_lit cfg E o k sb c X hp.1 hp.2 RX hRX
   | .esc c => by
     intro E hG _ o k sb X RX _ hRX
-    simp only [Frag.render, Frag.eval, List.cons_append, List.nil_append]
+    simp only [Frag.render, Frag.eval, List.cons_append, List.nil_append, bindE_ok]
     have := GS_esc cfg E o k sb c X (isDelim_esc E hG) RX hRX
     rw [esc_is_backslash] at this
     exact this
   | .sq s => by
     intro E hG hwf o k sb X RX _ hRX
     simp only [Frag.wf, Bool.not_eq_true'] at hwf
-    simp only [Frag.render, Frag.eval]
+    simp only [Frag.render, Frag.eval, bindE_ok]
     have := GS_sq cfg E o k sb s X hG.sq hwf RX hRX
     simpa using this
   | .dq fs => by
@@ -218,6 +197,7 @@ theorem pFrag (cfg : Cfg) : (f : Frag) → PFrag cfg f
     | ok n =>
       rw [hev] at ih
       have hv := GV_plain cfg sb _ n X ih
+      dsimp only
       cases hvv : varValue cfg sb n with
       | error err =>
         rw [hvv] at hv
@@ -233,6 +213,7 @@ theorem pFrag (cfg : Cfg) : (f : Frag) → PFrag cfg f
       · exact term_cons _ _ _ _ (by decide)
       · exact term_cons _ _ _ _ (by decide)
     have ih := pList cfg name ctxName good_name hwf.1 false true sb _ ht
+    rw [closeRest_true] at ih
     have e : (Frag.dflt name colon d).render E ++ X =
         '$' :: '{' :: (renderL ctxName name ++ (colonStr colon ++ '-' :: (renderL ctxBranch d ++ '}' :: X))) := by
       simp [Frag.render]
@@ -244,10 +225,6 @@ theorem pFrag (cfg : Cfg) : (f : Frag) → PFrag cfg f
       exact GS_var_err cfg E o k sb _ err hG.dollar (GV_err cfg sb _ err ih)
     | ok n =>
       rw [hev] at ih
-      have hc : closeRest true (colonStr colon ++ '-' :: (renderL ctxBranch d ++ '}' :: X)) =
-          colonStr colon ++ '-' :: (renderL ctxBranch d ++ '}' :: X) := by
-        cases colon <;> rfl
-      rw [hc] at ih
       have ihd := pList cfg d ctxBranch good_branch hwf.2 false false (sb && isUnset cfg colon n)
         ('}' :: X) (term_cons _ _ _ _ (by decide))
       simp only [closeRest, Bool.false_eq_true, if_false] at ihd
@@ -268,6 +245,7 @@ theorem pFrag (cfg : Cfg) : (f : Frag) → PFrag cfg f
       · exact term_cons _ _ _ _ (by decide)
       · exact term_cons _ _ _ _ (by decide)
     have ih := pList cfg name ctxName good_name hwf.1 false true sb _ ht
+    rw [closeRest_true] at ih
     have e : (Frag.altv name colon a).render E ++ X =
         '$' :: '{' :: (renderL ctxName name ++ (colonStr colon ++ '+' :: (renderL ctxBranch a ++ '}' :: X))) := by
       simp [Frag.render]
@@ -279,10 +257,6 @@ theorem pFrag (cfg : Cfg) : (f : Frag) → PFrag cfg f
       exact GS_var_err cfg E o k sb _ err hG.dollar (GV_err cfg sb _ err ih)
     | ok n =>
       rw [hev] at ih
-      have hc : closeRest true (colonStr colon ++ '+' :: (renderL ctxBranch a ++ '}' :: X)) =
-          colonStr colon ++ '+' :: (renderL ctxBranch a ++ '}' :: X) := by
-        cases colon <;> rfl
-      rw [hc] at ih
       have iha := pList cfg a ctxBranch good_branch hwf.2 false false (sb && !isUnset cfg colon n)
         ('}' :: X) (term_cons _ _ _ _ (by decide))
       simp only [closeRest, Bool.false_eq_true, if_false] at iha
@@ -299,13 +273,10 @@ theorem pFrag (cfg : Cfg) : (f : Frag) → PFrag cfg f
     intro E hG hwf o k sb X RX _ hRX
     simp only [Frag.wf, Bool.and_eq_true] at hwf
     have hw : ∀ T, Term ctxWord false T → GS cfg ctxWord false true sb (renderL ctxWord f ++ T)
-        (match evalL cfg sb f with
-         | .error e => .error e
-         | .ok v => .ok (v, T)) := by
+        (bindE (evalL cfg sb f) fun v => .ok (v, T)) := by
       intro T hT
       have := pList cfg f ctxWord good_word hwf.1 false true sb T hT
-      have hc : closeRest true T = T := by cases T <;> rfl
-      rw [hc] at this
+      rw [closeRest_true] at this
       exact this
     have hc := pArgs cfg args hwf.2 sb [] X (renderL ctxWord f) (evalL cfg sb f) hw
     have e : (Frag.call f args).render E ++ X =
@@ -319,14 +290,14 @@ theorem pFrag (cfg : Cfg) : (f : Frag) → PFrag cfg f
       exact GS_cmd_err cfg E o k sb _ err hG.dollar hc
     | ok fn =>
       rw [hef] at hc
-      dsimp only at hc ⊢
+      dsimp only [bindE_ok] at hc ⊢
       cases hea : evalArgs cfg sb args with
       | error err =>
         rw [hea] at hc
         exact GS_cmd_err cfg E o k sb _ err hG.dollar hc
       | ok vs =>
         rw [hea] at hc
-        dsimp only at hc ⊢
+        dsimp only [bindE_ok] at hc ⊢
         cases sb with
         | false =>
           have := GS_cmd_ok cfg E o k false _ [] X hG.dollar RX hc hRX
@@ -346,7 +317,7 @@ theorem pFrag (cfg : Cfg) : (f : Frag) → PFrag cfg f
 theorem pList (cfg : Cfg) : (fs : List Frag) → PList cfg fs
   | [] => by
     intro E _ _ o k sb tail ht
-    simp only [renderL, evalL, List.nil_append]
+    simp only [renderL, evalL, List.nil_append, bindE_ok]
     exact GS_term cfg E o k sb tail ht
   | f :: fs => by
     intro E hG hwf o k sb tail ht
@@ -360,12 +331,12 @@ theorem pList (cfg : Cfg) : (fs : List Frag) → PList cfg fs
     have ihf := pFrag cfg f E hG hwf.1.1 o k sb _ _ hX ihs
     have e : renderL E (f :: fs) ++ tail = f.render E ++ (renderL E fs ++ tail) := by
       simp [renderL]
-    rw [e, evalL_cons]
+    rw [e, evalL]
     cases hf : f.eval cfg sb with
     | error err => rw [hf] at ihf; exact ihf
     | ok v =>
       rw [hf] at ihf
-      dsimp only at ihf ⊢
+      dsimp only [bindE_ok] at ihf ⊢
       cases hfs : evalL cfg sb fs with
       | error err => rw [hfs] at ihf; exact ihf
       | ok r => rw [hfs] at ihf; exact ihf
@@ -374,7 +345,7 @@ theorem pArgs (cfg : Cfg) : (as : List (List Frag)) → PArgs cfg as
   | [] => by
     intro _ sb acc X wtxt Rw hw
     have h := hw (')' :: X) (term_cons _ _ _ _ (by decide))
-    simp only [renderArgs, evalArgs, List.nil_append, List.reverse_nil]
+    simp only [renderArgs, SubstSpec.evalArgs, List.nil_append]
     cases Rw with
     | error err => exact GC_err cfg sb _ acc err h
     | ok v => exact GC_last cfg sb _ v X acc h
@@ -389,24 +360,21 @@ theorem pArgs (cfg : Cfg) : (as : List (List Frag)) → PArgs cfg as
     cases Rw with
     | error err => exact GC_err cfg sb _ acc err h
     | ok v =>
-      dsimp only at h ⊢
+      dsimp only [bindE_ok] at h ⊢
       have hwa : ∀ T, Term ctxWord false T → GS cfg ctxWord false true sb (renderL ctxWord a ++ T)
-          (match evalL cfg sb a with
-           | .error e => .error e
-           | .ok v => .ok (v, T)) := by
+          (bindE (evalL cfg sb a) fun v => .ok (v, T)) := by
         intro T hT
         have := pList cfg a ctxWord good_word hwf.1 false true sb T hT
-        have hc : closeRest true T = T := by cases T <;> rfl
-        rw [hc] at this
+        rw [closeRest_true] at this
         exact this
       have ih := pArgs cfg as hwf.2 sb (v :: acc) X (renderL ctxWord a) (evalL cfg sb a) hwa
       have := GC_more cfg sb _ v _ acc _ h ih
-      rw [evalArgs]
+      rw [SubstSpec.evalArgs]
       cases hea : evalL cfg sb a with
       | error err => rw [hea] at this; exact this
       | ok va =>
         rw [hea] at this
-        dsimp only at this ⊢
+        dsimp only [bindE_ok] at this ⊢
         cases heas : evalArgs cfg sb as with
         | error err => rw [heas] at this; exact this
         | ok vs =>
@@ -414,5 +382,119 @@ theorem pArgs (cfg : Cfg) : (as : List (List Frag)) → PArgs cfg as
           simpa using this
 
 end
+
+/-- **main lemma**: the parser on the rendering of a well-formed tree returns the documented value -/
+theorem parse_render (cfg : Cfg) (fs : List Frag) (hwf : wfL ctxTop fs = true) :
+    parse cfg (renderL ctxTop fs) = evalL cfg true fs := by
+  have h := pList cfg fs ctxTop good_top hwf true false true [] (Or.inl ⟨rfl, rfl⟩)
+  rw [List.append_nil] at h
+  have := parse_of_eventually cfg _ _ h
+  rw [this]
+  cases evalL cfg true fs <;> rfl
+
+/-! ### with substitution switched off nothing can fail (laziness of the untaken branch) -/
+
+mutual
+theorem evalF_off (cfg : Cfg) : (f : Frag) → ∃ v, f.eval cfg false = .ok v
+  | .lit c => ⟨_, rfl⟩
+  | .esc c => ⟨_, rfl⟩
+  | .sq s => ⟨_, rfl⟩
+  | .dq fs => by
+    obtain ⟨v, hv⟩ := evalL_off cfg fs
+    exact ⟨v, by simp only [Frag.eval, hv]⟩
+  | .bare name => by
+    simp only [Frag.eval, varValue, Bool.false_and, Bool.false_eq_true, if_false]
+    cases lookup cfg.env name with
+    | none => exact ⟨_, rfl⟩
+    | some v => exact ⟨_, rfl⟩
+  | .var name => by
+    obtain ⟨n, hn⟩ := evalL_off cfg name
+    simp only [Frag.eval, hn, varValue, Bool.false_and, Bool.false_eq_true, if_false]
+    cases lookup cfg.env n with
+    | none => exact ⟨_, rfl⟩
+    | some v => exact ⟨_, rfl⟩
+  | .dflt name colon d => by
+    obtain ⟨n, hn⟩ := evalL_off cfg name
+    obtain ⟨dv, hd⟩ := evalL_off cfg d
+    exact ⟨_, by simp only [Frag.eval, hn, Bool.false_and, hd]; rfl⟩
+  | .altv name colon a => by
+    obtain ⟨n, hn⟩ := evalL_off cfg name
+    obtain ⟨av, ha⟩ := evalL_off cfg a
+    exact ⟨_, by simp only [Frag.eval, hn, Bool.false_and, ha]; rfl⟩
+  | .call f args => by
+    obtain ⟨fn, hf⟩ := evalL_off cfg f
+    obtain ⟨vs, hvs⟩ := evalArgs_off cfg args
+    exact ⟨_, by simp only [Frag.eval, hf, hvs, Bool.false_eq_true, if_false]; rfl⟩
+
+theorem evalL_off (cfg : Cfg) : (fs : List Frag) → ∃ v, evalL cfg false fs = .ok v
+  | [] => ⟨_, rfl⟩
+  | f :: fs => by
+    obtain ⟨v, hv⟩ := evalF_off cfg f
+    obtain ⟨r, hr⟩ := evalL_off cfg fs
+    exact ⟨_, by simp only [evalL, hv, hr]; rfl⟩
+
+theorem evalArgs_off (cfg : Cfg) : (as : List (List Frag)) → ∃ vs, SubstSpec.evalArgs cfg false as = .ok vs
+  | [] => ⟨_, rfl⟩
+  | a :: as => by
+    obtain ⟨v, hv⟩ := evalL_off cfg a
+    obtain ⟨r, hr⟩ := evalArgs_off cfg as
+    exact ⟨_, by simp only [SubstSpec.evalArgs, hv, hr]; rfl⟩
+end
+
+/-! ### protected text -/
+
+theorem GS_escAll (cfg : Cfg) (s : Str) : GS cfg [] true false true (escAll s) (.ok (s, [])) := by
+  induction s with
+  | nil => exact GS_eos cfg [] false true
+  | cons c s ih =>
+    have := GS_esc cfg [] true false true c (escAll s) (isDelim_esc [] good_top) _ ih
+    rw [esc_is_backslash] at this
+    simpa [escAll] using this
+
+theorem escMeta_cons (c : Char) (s : Str) :
+    escMeta (c :: s) = (if metaChars.contains c then ['\\', c] else [c]) ++ escMeta s := by
+  simp [escMeta]
+
+theorem GS_escMeta (cfg : Cfg) (sb : Bool) (s X : Str) :
+    GS cfg ctxDq false false sb (escMeta s ++ '"' :: X) (.ok (s, X)) := by
+  induction s with
+  | nil => exact GS_close cfg ctxDq false false sb '"' X (by decide)
+  | cons c s ih =>
+    cases hm : metaChars.contains c with
+    | true =>
+      have := GS_esc cfg ctxDq false false sb c (escMeta s ++ '"' :: X) (isDelim_esc _ good_dq) _ ih
+      rw [esc_is_backslash] at this
+      rw [escMeta_cons, hm]
+      exact this
+    | false =>
+      have hp := plain_lit ctxDq c (by
+        rw [hm, Bool.false_or]
+        cases hq : ctxDq.contains c with
+        | false => rfl
+        | true =>
+          have : c = '"' := by simpa [ctxDq] using hq
+          subst this
+          exact absurd hm (by decide))
+      have := GS_lit cfg ctxDq false false sb c (escMeta s ++ '"' :: X) hp.1 hp.2 _ ih
+      rw [escMeta_cons, hm]
+      exact this
+
+/-! ### data for the non-vacuity examples in Props/C17.lean -/
+
+def lits (s : Str) : List Frag := s.map .lit
+
+/-- `"${A:-$(if-then-else,${B},'x,y',\))}"` : a call inside a default inside double quotes, with a
+braced variable, a quoted comma and an escaped parenthesis as arguments -/
+def exTree : List Frag :=
+  [.dq [.dflt (lits ['A']) true
+    [.call (lits ['i', 'f', '-', 't', 'h', 'e', 'n', '-', 'e', 'l', 's', 'e'])
+      [[.var (lits ['B'])], [.sq ['x', ',', 'y']], [.lit ')']]]]]
+
+/-- `${A:-$U$(nofun,x)}` : the default refers to an unset variable and an unknown function -/
+def exLazy : List Frag :=
+  [.dflt (lits ['A']) true [.bare ['U'], .call (lits ['n', 'o', 'f', 'u', 'n']) [[.lit 'x']]]]
+
+def exCfg (env : List (Str × Str)) : Cfg :=
+  { env := env, nounset := true, sandbox := false, tools := [] }
 
 end C17
